@@ -208,7 +208,7 @@ Definition run_e (i : sx) : sx :=
 
 Definition run (i : sx) : sx :=
   match i with
-  | L [A 200%Z; case; sch; A na; A nb] =>
+  | L (A 200%Z :: case :: sch :: A na :: A nb :: _) =>
       do s <- as_list_of as_label sch;
       run_t case s (Z.to_nat na) (Z.to_nat nb)
   | L (A 300%Z :: case :: _) => run_e case
